@@ -44,7 +44,7 @@ func runC01(c *core.Ctx) {
 	c.Rule("R1", "Operation bitmap: exhaustive states, agreeing shifts, disjoint halves", 5)
 	c.Rule("R2", "single lookup implementation: Filter ∘ findInstancesForKey under one lock hold, RF passed on unchanged", 5)
 	c.Rule("R3", "walk bookkeeping: append ⇔ filter includes; extend ⇔ operation extends on the state; per-zone totals count all instances", 4)
-	c.Rule("R4", "default strategy: quorum computed before filtering over max(RF, walked); keep ⇔ IsHealthy; slack = healthy − quorum", 5)
+	c.Rule("R4", "default strategy: quorum computed before filtering over max(RF, walked); keep ⇔ IsHealthy (state ∧ one-sided heartbeat age ≤ timeout); slack = healthy − quorum", 6)
 	pkg := c.Prog.Pkg("ring")
 	if pkg == nil {
 		c.Miss("R1", "pkg=ring", "not loaded")
@@ -423,6 +423,37 @@ func c01Filter(c *core.Ctx, pkg *packages.Package) {
 			c.Check(okh, "R4", "func=InstanceDesc.IsHealthy", ih.Pos(), fmt.Sprintf("healthy = state accepted by the operation ∧ heartbeat within the timeout: %v", keys(conj)), 1)
 		} else {
 			c.Miss("R4", "func=InstanceDesc.IsHealthy", "not found")
+		}
+		// heartbeat freshness is one-sided: age = now − heartbeat compared with the timeout by ≤ (a heartbeat
+		// stamped in the future by a skewed clock is fresh). Only recognised spellings of that comparison hold;
+		// anything else (an absolute value, a second bound, a strict <) is reported.
+		if hh := an.FindFunc(pkg, "InstanceDesc.IsHeartbeatHealthy"); hh != nil {
+			c.Analysed(hh.String())
+			age := "p1.Sub(time.Unix(recv.Timestamp, 0))"
+			forms := map[string]bool{
+				"(" + age + " <= p0)": true, "(p0 >= " + age + ")": true,
+				"!(" + age + " > p0)": true, "!(p0 < " + age + ")": true,
+				"!p1.After(time.Unix(recv.Timestamp, 0).Add(p0))": true,
+				"(time.Since(time.Unix(recv.Timestamp, 0)) <= p0)": false,
+			}
+			var rets []string
+			okf := true
+			for _, b := range hh.Graph().Blocks {
+				if r := an.ReturnOf(b); r != nil && len(r.Results) == 1 {
+					rc := hh.Canon(r.Results[0])
+					rets = append(rets, rc)
+					if !forms[rc] {
+						okf = false
+					}
+				}
+			}
+			if okf && len(rets) == 1 {
+				c.Hold("R4", "func=InstanceDesc.IsHeartbeatHealthy", hh.Pos(), "heartbeat is fresh ⇔ now − heartbeat ≤ timeout (one comparison, one-sided): "+rets[0], 1)
+			} else {
+				c.Undec("R4", "func=InstanceDesc.IsHeartbeatHealthy", hh.Pos(), fmt.Sprintf("the freshness predicate is not one of the recognised spellings of `now − heartbeat ≤ timeout`: %v", rets))
+			}
+		} else {
+			c.Miss("R4", "func=InstanceDesc.IsHeartbeatHealthy", "not found")
 		}
 	}
 	// outcome: error ⇔ healthy < quorum; slack = healthy - quorum
